@@ -211,6 +211,27 @@ where
         self.receiver.setup(metadata);
 
         let prev_replicas = self.receiver.prev_replicas();
+        #[cfg(feature = "verif")]
+        {
+            // verification hook: which upstream replicas (and blocks, left before right) this Start listens to
+            let prev: Vec<String> = prev_replicas
+                .iter()
+                .map(|c| crate::verif::coord_str(*c))
+                .collect();
+            let blocks: Vec<BlockId> = self
+                .receiver
+                .structure()
+                .operators
+                .iter()
+                .flat_map(|o| o.receivers.iter().map(|r| r.previous_block_id))
+                .collect();
+            let cached = self.receiver.cached_replicas();
+            let at = crate::verif::coord_str(metadata.coord);
+            crate::verif::emit(|| {
+                serde_json::json!({"ev": "start_setup", "at": at, "prev": prev, "prev_blocks": blocks,
+                    "cached_replicas": cached})
+            });
+        }
         self.num_previous_replicas = prev_replicas.len();
         self.missing_terminate = self.num_previous_replicas;
         self.missing_flush_and_restart = self.num_previous_replicas;
